@@ -74,6 +74,7 @@ def xf_names(m, n, hermitian=False):
     names += ["equalmod", "constant", "rowgraded", "colgraded", "circulant_q", "toeplitz_q", "checker", "lay:F", "lay:T", "lay:view", "lay:ro",
               "negzero_col", "negated_checker", "nearcol", "depcol1",
               "allneg", "nonpos", "nearreal", "twodeps", "halfdep_top", "halfdep_bot"]
+    names += ["nearreal:10", "nearreal:14", "nearreal:20", "nearunit:+", "nearunit:-", "nearunit:cols", "blocktri2", "col0_hess"]
     names += ["blockdiag1", "blockdiag2", "arrow", "zero_row1", "zerosum:low2", "zerosum:low1", "zerosum:up1", "zerosum:all", "zerosum:imag"]
     # nearly structured inputs at several magnitudes: structured part O(1), everything else scaled by 2^-e
     names += [f"near:{st}:{e}" for st in ("diag", "tridiag", "hess", "triu") for e in (20, 30, 40, 48)]
@@ -170,9 +171,35 @@ def xf_build(name, m, n, fill, hermitian=False):
         A = -np.abs(base)
         A[0, 0, 1] = 0.0
         A[m - 1, n - 1] = 0.0
-    elif name == "nearreal":  # real entries plus vector parts of relative size 2^-30 (almost, but not exactly, real)
+    elif name.startswith("nearunit:"):
+        # (sub-)column norms within a few 1e-6 of 1 without being exactly 1: first column below the diagonal, or every column
         A = base.copy()
-        A[..., 1:] = np.ldexp(base[..., 1:], -30)
+        which = name.split(":")[1]
+        if which == "cols":
+            for j in range(n):
+                nj = O.fro(A[:, j : j + 1])
+                if nj > 0:
+                    A[:, j] = A[:, j] / nj * (1.0 + (3e-6 if j % 2 else -4e-6))
+        elif m >= 2:
+            nj = O.fro(A[1:, 0:1])
+            if nj > 0:
+                A[1:, 0] = A[1:, 0] / nj * (1.000004 if which == "+" else 0.999997)
+        if hermitian:
+            A = _hermitize(A)
+    elif name == "blocktri2":  # block upper triangular with an exactly zero lower-left block, leading block 2 x 2 (reducible, coupled)
+        A = base.copy()
+        A[2:, :2] = 0.0
+        if hermitian:
+            A[:2, 2:] = 0.0
+    elif name == "col0_hess":  # first column already in Hessenberg form (zero below the sub-diagonal), the rest dense
+        A = base.copy()
+        A[2:, 0] = 0.0
+        if hermitian:
+            A[0, 2:] = 0.0
+    elif name.startswith("nearreal"):  # real entries plus vector parts of relative size 2^-e (almost, but not exactly, real)
+        e_ = int(name.split(":")[1]) if ":" in name else 30
+        A = base.copy()
+        A[..., 1:] = np.ldexp(base[..., 1:], -e_)
         if hermitian:
             A = _hermitize(A)
     elif name == "twodeps":  # two separate groups of right-dependent columns: col1 = col0*q, col3 = col2*i (non-real coefficients)
